@@ -16,6 +16,7 @@ from ..model import FuncInfo, ClassInfo, iter_own_nodes, strip_opt
 from ..absval import Abs
 from ..exceptions import ExcAnalysis
 from ..flow import always_raises, atomic_facts, same_expr
+from .shared import eval_guard, reach_under
 
 
 def check(ctx):
@@ -117,8 +118,6 @@ def check(ctx):
     loops = [n for n in iter_own_nodes(match.node) if isinstance(n, ast.For) and ctx.flow.enclosing(n, (ast.For,)) is None]
     seq: List[Tuple[str, str, str, str, bool]] = []
     recognised = False
-    port_loop = loops[0] if len(loops) == 1 else None
-    loopvar = getattr(port_loop.target, 'id', None) if port_loop is not None else None
 
     def kind_of(t: str) -> str:
         return 'strset' if 'match_strset' in t else 'wildcard' if 'match_wildcard' in t else '?'
@@ -126,58 +125,119 @@ def check(ctx):
     def tests_of(test: ast.expr) -> List[ast.expr]:
         return list(test.values) if isinstance(test, ast.BoolOp) and isinstance(test.op, ast.Or) else [test]
 
-    if port_loop is not None and port_loop.body and isinstance(port_loop.body[-1], ast.If):
-        node = port_loop.body[-1]
+    def member_of(e: Optional[ast.expr]) -> Optional[str]:
+        sym = prog.resolve_expr_symbol(match.module, e) if isinstance(e, (ast.Name, ast.Attribute)) else None
+        if isinstance(sym, tuple) and sym[0] == 'enum_member' and sym[1] is rs:
+            return sym[2].lower()
+        return None
+
+    def is_none(e: Optional[ast.expr]) -> bool:
+        return e is None or (isinstance(e, ast.Constant) and e.value is None)
+
+    def decisions_stmts(stmts: List[ast.stmt], portvar: str, store: Optional[str]):
+        """Ordered [(test, outcome expr)] of an if / elif chain or of a sequence of `if T: return M`, and whether the
+        remaining case leaves the port without a semantics.  `store`: name of the dict for `d[port] = M` outcomes."""
+        out = []
+        stmts = [s_ for s_ in stmts if not (isinstance(s_, ast.Expr) and isinstance(s_.value, ast.Constant))]
+        i = 0
+        while i < len(stmts):
+            st = stmts[i]
+            if isinstance(st, ast.If):
+                node = st
+                while True:
+                    body = [b for b in node.body if not isinstance(b, (ast.Pass,))]
+                    outcome = None
+                    if len(body) == 1 and isinstance(body[0], ast.Return):
+                        outcome = body[0].value
+                    elif body and isinstance(body[0], ast.Assign) and isinstance(body[0].targets[0], ast.Subscript) and \
+                            ast.unparse(body[0].targets[0].slice) == portvar and all(isinstance(b, (ast.Assign, ast.Break)) for b in body) \
+                            and len([b for b in body if isinstance(b, ast.Assign)]) == 1:
+                        outcome = body[0].value
+                    else:
+                        return None
+                    out.append((node.test, outcome))
+                    if len(node.orelse) == 1 and isinstance(node.orelse[0], ast.If):
+                        node = node.orelse[0]
+                        continue
+                    if node.orelse:
+                        return None
+                    break
+                i += 1
+                continue
+            if isinstance(st, ast.Return):
+                return out if is_none(st.value) and i == len(stmts) - 1 else None
+            if isinstance(st, (ast.Assign, ast.AnnAssign)) and not out:
+                i += 1          # a local that the normal form left behind (e.g. the inlined rule table)
+                continue
+            return None
+        return out
+
+    def decisions_ifexp(e: ast.expr):
+        out = []
+        while isinstance(e, ast.IfExp):
+            out.append((e.test, e.body))
+            e = e.orelse
+        return out if is_none(e) else None
+
+    port_loop = loops[0] if len(loops) == 1 else None
+    loopvar = getattr(port_loop.target, 'id', None) if port_loop is not None else None
+    decided = None          # [(test, outcome)], name of the tested port variable
+    where = match
+    if port_loop is not None and loopvar:
+        body = [b for b in port_loop.body if not (isinstance(b, ast.Expr) and isinstance(b.value, ast.Constant))]
+        # (A) the chain stores into the result directly
+        d_ = decisions_stmts(body, loopvar, None)
+        if d_ and all(member_of(o) for _t, o in d_):
+            decided = (d_, loopvar)
+        # (C) a conditional expression picks the semantics, stored when it is not None
+        elif len(body) == 2 and isinstance(body[0], ast.Assign) and isinstance(body[0].targets[0], ast.Name) and \
+                isinstance(body[1], ast.If) and not body[1].orelse:
+            d_ = decisions_ifexp(body[0].value)
+            loc = body[0].targets[0].id
+            guard = ast.unparse(body[1].test)
+            stores = [b for b in body[1].body if isinstance(b, ast.Assign) and isinstance(b.targets[0], ast.Subscript)
+                      and ast.unparse(b.targets[0].slice) == loopvar and ast.unparse(b.value) == loc]
+            if d_ and guard in (f'{loc} is not None', loc) and len(stores) == 1 and len(body[1].body) == 1:
+                decided = (d_, loopvar)
+    if decided is None:
+        # (B) a per-port decision method: `if T: return M` ... `return None`, applied to every expected port by match()
+        expected = match.params()[1].arg if len(match.params()) > 1 else None
+        for c in iter_own_nodes(match.node):
+            if isinstance(c, ast.Call) and isinstance(c.func, ast.Attribute) and isinstance(c.func.value, ast.Name) and \
+                    c.func.value.id == 'self' and len(c.args) == 1 and isinstance(c.args[0], ast.Name):
+                m_ = prog.lookup_method(psc, c.func.attr)
+                if m_ is None or len(m_.params()) != 2:
+                    continue
+                d_ = decisions_stmts(m_.node.body, m_.params()[1].arg, None)
+                if not d_:
+                    continue
+                # the argument ranges over the expected ports and the result is kept under that port, None dropped
+                binder = None
+                p_ = prog.parent(c)
+                while p_ is not None and p_ is not match.node:
+                    if isinstance(p_, (ast.GeneratorExp, ast.ListComp, ast.DictComp)) and len(p_.generators) == 1 and \
+                            isinstance(p_.generators[0].target, ast.Name) and p_.generators[0].target.id == c.args[0].id:
+                        binder = p_.generators[0].iter
+                    if isinstance(p_, ast.For) and isinstance(p_.target, ast.Name) and p_.target.id == c.args[0].id:
+                        binder = p_.iter
+                    p_ = prog.parent(p_)
+                txt_m = ast.unparse(match.node)
+                drops_none = 'is not None' in txt_m
+                if binder is not None and ast.unparse(binder) == expected and drops_none:
+                    decided = (d_, m_.params()[1].arg)
+                    where = m_
+                    break
+    if decided is not None:
         recognised = True
-        while True:
-            assigns = [s_ for s_ in node.body if isinstance(s_, ast.Assign) and isinstance(s_.targets[0], ast.Subscript)]
-            for t_ in tests_of(node.test):
+        for test, outcome in decided[0]:
+            sem = member_of(outcome) or '?'
+            for t_ in tests_of(test):
                 txt_ = ast.unparse(t_)
                 sel = 'sts' if 'self.sts.' in txt_ else 'mts' if 'self.mts.' in txt_ else '?'
-                ok_ = False
-                sem = '?'
-                if len(assigns) == 1:
-                    key = ast.unparse(assigns[0].targets[0].slice)
-                    sym = prog.resolve_expr_symbol(match.module, assigns[0].value)
-                    if isinstance(sym, tuple) and sym[0] == 'enum_member' and sym[1] is rs:
-                        sem = sym[2].lower()
-                    call = next((c for c in ast.walk(t_) if isinstance(c, ast.Call)), None)
-                    ok_ = sem == sel and key == loopvar and call is not None and bool(call.args) and ast.unparse(call.args[0]) == loopvar
+                call = t_ if isinstance(t_, ast.Call) else None
+                ok_ = sem == sel and call is not None and isinstance(call.func, ast.Attribute) and \
+                    ast.unparse(call.func.value) == f'self.{sel}' and len(call.args) == 1 and ast.unparse(call.args[0]) == decided[1]
                 seq.append((txt_, sel, kind_of(txt_), sem, ok_))
-            if len(node.orelse) == 1 and isinstance(node.orelse[0], ast.If):
-                node = node.orelse[0]
-            else:
-                break
-    elif port_loop is not None and port_loop.body and isinstance(port_loop.body[-1], ast.For):
-        inner = port_loop.body[-1]
-        it = inner.iter
-        if isinstance(it, ast.Name):
-            defs = [a_ for a_ in iter_own_nodes(match.node) if isinstance(a_, ast.Assign) and len(a_.targets) == 1
-                    and isinstance(a_.targets[0], ast.Name) and a_.targets[0].id == it.id]
-            it = defs[0].value if len(defs) == 1 else it
-        pairs = []
-        if isinstance(it, (ast.Tuple, ast.List)) and all(isinstance(e, ast.Tuple) and len(e.elts) == 2 for e in it.elts) and \
-                isinstance(inner.target, ast.Tuple) and len(inner.target.elts) == 2 and all(isinstance(x, ast.Name) for x in inner.target.elts):
-            for e in it.elts:
-                sel_txt = ast.unparse(e.elts[0])
-                sym = prog.resolve_expr_symbol(match.module, e.elts[1])
-                if sel_txt in ('self.sts', 'self.mts') and isinstance(sym, tuple) and sym[0] == 'enum_member' and sym[1] is rs:
-                    pairs.append((sel_txt.split('.')[1], sym[2].lower()))
-        sel_var, sem_var = (inner.target.elts[0].id, inner.target.elts[1].id) if pairs else (None, None)
-        body_if = inner.body[0] if len(inner.body) == 1 and isinstance(inner.body[0], ast.If) and not inner.body[0].orelse else None
-        if pairs and len(pairs) == len(it.elts) and body_if is not None:
-            assigns = [s_ for s_ in body_if.body if isinstance(s_, ast.Assign) and isinstance(s_.targets[0], ast.Subscript)]
-            leaves = any(isinstance(s_, ast.Break) for s_ in body_if.body)
-            if len(assigns) == 1 and leaves and ast.unparse(assigns[0].value) == sem_var and \
-                    ast.unparse(assigns[0].targets[0].slice) == loopvar:
-                recognised = True
-                for sel, sem in pairs:
-                    for t_ in tests_of(body_if.test):
-                        txt_ = ast.unparse(t_)
-                        call = next((c for c in ast.walk(t_) if isinstance(c, ast.Call)), None)
-                        on_sel = call is not None and isinstance(call.func, ast.Attribute) and ast.unparse(call.func.value) == sel_var
-                        ok_ = on_sel and sem == sel and bool(call.args) and ast.unparse(call.args[0]) == loopvar
-                        seq.append((txt_.replace(sel_var + '.', f'self.{sel}.'), sel, kind_of(txt_), sem, ok_))
     if not recognised or len(seq) < 4:
         run.error('C03.explicit-first', match.module.name, match.qualname, 'selection tests',
                   f'the tests that assign a semantics in match() are neither an if/elif chain nor a loop over (selection, semantics) '
@@ -286,8 +346,8 @@ def check(ctx):
     # ---- C03.lookup / C03.injected ------------------------------------------------------------------------------------------------------
     dpi = prog.cls('adv_shell.common', 'DznPortItf')
     ctors = [c for c in iter_own_nodes(cde.node) if isinstance(c, ast.Call) and prog.resolve_expr_symbol(cde.module, c.func) is dpi]
-    if len(ctors) < 2:
-        run.error('C03.lookup', cde.module.name, cde.qualname, 'DznPortItf constructions', f'{len(ctors)} found, 2 confirmed')
+    if len(ctors) < 1:
+        run.error('C03.lookup', cde.module.name, cde.qualname, 'DznPortItf constructions', 'no DznPortItf construction found')
     fields = list(prog.class_fields(dpi).keys())
     for c in ctors:
         args = {fields[i]: a for i, a in enumerate(c.args) if i < len(fields)}
@@ -306,20 +366,43 @@ def check(ctx):
             if ok:
                 why = f'semantics = lookup of `{port.id}` in the match result, handed on unchanged'
         run.add('C03.lookup', cde.module.name, cde.qualname, c, ok, why, node=c)
-        # injected filter
-        facts = [(ast.unparse(f), p) for f, p in abs_.facts_at(c)]
-        is_prov = any('PortDirection.PROVIDES' in f and p for f, p in facts)
-        filt = [(f, p) for f, p in facts if 'injected' in f]
-        if is_prov:
-            run.add('C03.injected', cde.module.name, cde.qualname, c, not filt,
-                    'provides ports are never filtered' if not filt else 'a provides port is filtered by the injected flag',
-                    node=c)
+    # injected filter, decided per scenario (direction of the port x injected flag) over the dominating conditions of the
+    # construction sites - whatever the shape of the branching (nested ifs, guard clauses, a predicate helper)
+    def single_def(nm: ast.Name):
+        defs = [a for a in iter_own_nodes(cde.node) if isinstance(a, ast.Assign) and len(a.targets) == 1
+                and isinstance(a.targets[0], ast.Name) and a.targets[0].id == nm.id]
+        return defs[0].value if len(defs) == 1 else None
+
+    pd = prog.cls('ast', 'PortDirection')
+    port_var = next((prog.bind_call(cde.module, c).get('port') for c in ctors), None)
+    for direction, injected, want in (('PROVIDES', False, True), ('PROVIDES', True, True), ('REQUIRES', False, True),
+                                      ('REQUIRES', True, False)):
+        def leaf(e, direction=direction, injected=injected):
+            if isinstance(e, ast.Compare) and len(e.ops) == 1 and isinstance(e.ops[0], (ast.Eq, ast.NotEq, ast.Is, ast.IsNot)):
+                for a_, b_ in ((e.left, e.comparators[0]), (e.comparators[0], e.left)):
+                    sym = prog.resolve_expr_symbol(cde.module, b_) if isinstance(b_, (ast.Name, ast.Attribute)) else None
+                    if isinstance(sym, tuple) and sym[0] == 'enum_member' and sym[1] is pd and ast.unparse(a_).endswith('.direction'):
+                        r = sym[2] == direction
+                        return r if isinstance(e.ops[0], (ast.Eq, ast.Is)) else not r
+            if isinstance(e, ast.Attribute) and ast.unparse(e).endswith('.injected.value'):
+                return injected
+            return None
+        rs = [reach_under(ctx, c, leaf, single_def,
+                          relevant=lambda e: any(t in ast.unparse(e) for t in ('.direction', '.injected')) or any(
+                              isinstance(x, ast.Call) and isinstance(prog.resolve_expr_symbol(cde.module, x.func), FuncInfo)
+                              and any(isinstance(y, ast.Name) and y.id == getattr(port_var, 'id', None)
+                                      for a_ in x.args for y in ast.walk(a_)) for x in ast.walk(e))) for c in ctors]
+        got = True if any(r is True for r in rs) else None if any(r is None for r in rs) else False
+        what = f'{direction.lower()} port, injected={injected}'
+        if got is None:
+            run.error('C03.injected', cde.module.name, cde.qualname, what,
+                      f'whether a {what} gets a DznPortItf depends on a condition this rule cannot evaluate')
         else:
-            ok = len(filt) == 1 and filt[0][1] is False and filt[0][0].endswith('.injected.value')
-            run.add('C03.injected', cde.module.name, cde.qualname, c, ok,
-                    'a requires port is exposed exactly when it is not injected' if ok else
-                    f'requires-port construction is under {filt or "no injected test"}: injected ports would be '
-                    f'exposed / non-injected ports dropped', node=c)
+            run.add('C03.injected', cde.module.name, cde.qualname, what, got == want,
+                    (f'a {what} is exposed' if want else 'an injected requires port is not exposed') if got == want else
+                    (f'a {what} is not exposed (no DznPortItf is built for it): the port is dropped from the shell' if want else
+                     'an injected requires port is exposed: it would need a semantics although it is bound through the locator'),
+                    node=ctors[0] if ctors else None)
     # the key used inside the lookup helper is the port *name*
     for fn in prog.all_functions():
         if fn.module is ps_mod:
@@ -446,18 +529,131 @@ def _rejects(ctx, ex, psc: ClassInfo, pc: ClassInfo, adv_err: ClassInfo):
         return post, out
 
     post, gs = guards(psc)
-    texts = [ast.unparse(g.test) for g in gs]
-    wants = [
-        ('equal selections', lambda t: 'self.sts == self.mts' in t or 'self.mts == self.sts' in t),
-        ('overlapping name sets', lambda t: 'tryget_strset' in t and ('for' in t or '&' in t)),
-        ('ALL combined with a non-empty selection',
-         lambda t: t.count('is_wildcard_all') >= 2 and t.count('is_not_empty') >= 2),
-    ]
-    for label, pred in wants:
-        hit = next((g for g, t in zip(gs, texts) if pred(t)), None)
-        run.add('C03.rejects', psc.module.name, 'PortsSemanticsCfg.__post_init__', hit if hit is not None else label,
-                hit is not None, f'{label}: rejected with AdvShellError at construction' if hit is not None else
-                f'{label}: no rejection found in PortsSemanticsCfg.__post_init__')
+    # Scenario evaluation: for every combination of selection kinds (and, for two name sets, their relation) the guards of
+    # __post_init__ are evaluated through the bodies of the PortSelect predicates they call.  Which guard rejects what, and
+    # how the guards are written (one test, two symmetric tests, a loop over both orientations), does not matter.
+    psel_cls = prog.cls('adv_shell.port_selection', 'PortSelect')
+    pw = prog.cls('adv_shell.port_selection', 'PortWildcard')
+    KINDS = ('ALL', 'NONE', 'REMAINING', 'SET')
+
+    def select_leaf(kind: str):
+        def leaf(e):
+            txt = ast.unparse(e)
+            if isinstance(e, ast.Call) and getattr(e.func, 'id', '') in ('is_strset_instance',) and txt.endswith('(self.value)'):
+                return kind == 'SET'
+            if isinstance(e, ast.Call) and getattr(e.func, 'id', '') == 'isinstance' and len(e.args) == 2 and \
+                    ast.unparse(e.args[0]) == 'self.value':
+                t = prog.resolve_expr_symbol(psel_cls.module, e.args[1]) if isinstance(e.args[1], (ast.Name, ast.Attribute)) else None
+                if t is pw:
+                    return kind != 'SET'
+                if ast.unparse(e.args[1]) in ('set', 'Set', 'frozenset'):
+                    return kind == 'SET'
+                return None
+            if isinstance(e, ast.Compare) and len(e.ops) == 1 and isinstance(e.ops[0], (ast.Eq, ast.NotEq, ast.Is, ast.IsNot)) and \
+                    ast.unparse(e.left) == 'self.value':
+                sym = prog.resolve_expr_symbol(psel_cls.module, e.comparators[0]) \
+                    if isinstance(e.comparators[0], (ast.Name, ast.Attribute)) else None
+                if isinstance(sym, tuple) and sym[0] == 'enum_member' and sym[1] is pw:
+                    r = kind == sym[2]
+                    return r if isinstance(e.ops[0], (ast.Eq, ast.Is)) else not r
+                return None
+            if txt == 'self.value':
+                return True          # a non-empty name set (class invariant) or an enum member: truthy
+            if isinstance(e, ast.Call) and getattr(e.func, 'id', '') in ('set', 'frozenset', 'list', 'tuple') and not e.args:
+                return False
+            return None
+        return leaf
+
+    def method_truth(sel_kind: str, meth: str) -> Optional[bool]:
+        m_ = prog.lookup_method(psel_cls, meth)
+        if m_ is None:
+            return None
+        body = [b for b in m_.node.body if not (isinstance(b, ast.Expr) and isinstance(b.value, ast.Constant))]
+        body = [b for b in body if not (isinstance(b, ast.Expr) and isinstance(b.value, ast.Call))]      # argument validators
+        if len(body) != 1 or not isinstance(body[0], ast.Return) or body[0].value is None:
+            return None
+        return eval_guard(body[0].value, select_leaf(sel_kind))
+
+    def cfg_leaf(ks: str, km: str, rel: str):
+        kind_of_sel = {'self.sts': ks, 'self.mts': km}
+        both_sets = ks == 'SET' and km == 'SET'
+        equal = (ks == km) and (ks != 'SET' or rel == 'equal')
+        overlap = both_sets and rel in ('equal', 'overlap')
+
+        def is_strset_call(x):
+            return isinstance(x, ast.Call) and isinstance(x.func, ast.Attribute) and x.func.attr == 'tryget_strset' and \
+                ast.unparse(x.func.value) in kind_of_sel
+
+        def leaf(e):
+            if isinstance(e, (ast.BinOp, ast.ListComp, ast.SetComp, ast.GeneratorExp)) and post is not None:
+                # locals that stand for the name sets
+                import copy as _copy
+                defs_ = {a.targets[0].id: a.value for a in iter_own_nodes(post.node) if isinstance(a, ast.Assign)
+                         and len(a.targets) == 1 and isinstance(a.targets[0], ast.Name)}
+
+                class Exp(ast.NodeTransformer):
+                    def visit_Name(self, n):
+                        return _copy.deepcopy(defs_[n.id]) if n.id in defs_ and isinstance(n.ctx, ast.Load) else n
+                if any(isinstance(x, ast.Name) and x.id in defs_ for x in ast.walk(e)):
+                    e = Exp().visit(_copy.deepcopy(e))
+            if isinstance(e, ast.Compare) and len(e.ops) == 1 and isinstance(e.ops[0], (ast.Eq, ast.NotEq)) and \
+                    {ast.unparse(e.left), ast.unparse(e.comparators[0])} == {'self.sts', 'self.mts'}:
+                return equal if isinstance(e.ops[0], ast.Eq) else not equal
+            if isinstance(e, ast.BinOp) and isinstance(e.op, ast.BitAnd) and is_strset_call(e.left) and is_strset_call(e.right) and \
+                    ast.unparse(e.left.func.value) != ast.unparse(e.right.func.value):
+                return overlap
+            if isinstance(e, (ast.ListComp, ast.SetComp, ast.GeneratorExp)) and len(e.generators) == 1 and \
+                    is_strset_call(e.generators[0].iter) and len(e.generators[0].ifs) == 1:
+                c_ = e.generators[0].ifs[0]
+                if isinstance(c_, ast.Compare) and len(c_.ops) == 1 and isinstance(c_.ops[0], ast.In) and \
+                        is_strset_call(c_.comparators[0]) and \
+                        ast.unparse(c_.comparators[0].func.value) != ast.unparse(e.generators[0].iter.func.value):
+                    return overlap
+                return None
+            if isinstance(e, ast.Call) and isinstance(e.func, ast.Attribute) and ast.unparse(e.func.value) in kind_of_sel and not e.args:
+                return method_truth(kind_of_sel[ast.unparse(e.func.value)], e.func.attr)
+            if isinstance(e, ast.Call) and getattr(e.func, 'id', '') in ('bool', 'len', 'any') and len(e.args) == 1:
+                return leaf(e.args[0]) if leaf(e.args[0]) is not None else eval_guard(e.args[0], leaf)
+            return None
+        return leaf
+
+    n_sc = 0
+    problems = {}
+    for ks in KINDS:
+        for km in KINDS:
+            for rel in (('equal', 'overlap', 'disjoint') if ks == km == 'SET' else ('-',)):
+                n_sc += 1
+                lf = cfg_leaf(ks, km, rel)
+
+                def local_def(nm: ast.Name):
+                    defs = [a for a in iter_own_nodes(post.node) if isinstance(a, ast.Assign) and len(a.targets) == 1
+                            and isinstance(a.targets[0], ast.Name) and a.targets[0].id == nm.id]
+                    return defs[0].value if len(defs) == 1 else None
+                vals = [eval_guard(g.test, lf, local_def) for g in gs]
+                rejected = True if any(v is True for v in vals) else None if any(v is None for v in vals) else False
+                equal = (ks == km) and (ks != 'SET' or rel == 'equal')
+                want = equal or (ks == km == 'SET' and rel in ('equal', 'overlap')) or (ks == 'ALL' and km != 'NONE') or \
+                    (km == 'ALL' and ks != 'NONE')
+                label = 'equal selections' if equal else 'overlapping name sets' if (ks == km == 'SET' and rel == 'overlap') else \
+                    'ALL combined with a non-empty selection' if want else 'valid combination'
+                what = f'sts={ks} mts={km}' + (f' ({rel})' if rel != '-' else '')
+                if rejected is None:
+                    problems.setdefault(('undecided', label), []).append(what)
+                elif rejected != want:
+                    problems.setdefault(('wrong', label), []).append(what)
+    run.stats['selection_scenarios'] = n_sc
+    for label in ('equal selections', 'overlapping name sets', 'ALL combined with a non-empty selection', 'valid combination'):
+        und = problems.get(('undecided', label))
+        bad = problems.get(('wrong', label))
+        if und and not bad:
+            run.error('C03.rejects', psc.module.name, 'PortsSemanticsCfg.__post_init__', label,
+                      f'{label}: the guards could not be evaluated for {und[:4]}')
+            continue
+        run.add('C03.rejects', psc.module.name, 'PortsSemanticsCfg.__post_init__', label, not bad,
+                (f'{label}: rejected with AdvShellError at construction' if label != 'valid combination' else
+                 'every valid combination of selections is accepted') if not bad else
+                (f'{label}: not rejected for {bad[:4]}' if label != 'valid combination' else
+                 f'valid combinations are rejected: {bad[:4]}'))
     post, gs = guards(pc)
     hit = next((g for g in gs if 'provides.sts.is_not_empty' in ast.unparse(g.test) and
                 'provides.mts.is_not_empty' in ast.unparse(g.test)), None)
